@@ -1118,6 +1118,18 @@ func (d *repDomain) valueSetOnEdge(v ssa.Value, at, to *ssa.BasicBlock, seen map
 		if call == nil {
 			break
 		}
+		// three-way comparison results of the standard library
+		if cal := call.Call.StaticCallee(); cal != nil && resIdx == 0 {
+			switch cal.String() {
+			case "(*math/big.Int).Cmp", "(*math/big.Int).CmpAbs", "(*math/big.Int).Sign", "(*math/big.Rat).Cmp", "(*math/big.Rat).Sign", "(*math/big.Float).Cmp", "(*math/big.Float).Sign", "strings.Compare", "bytes.Compare":
+				anyBase = false
+				base[-1], base[0], base[1] = true, true, true
+				d.reps[-1], d.reps[0], d.reps[1] = true, true, true
+			}
+			if !anyBase {
+				break
+			}
+		}
 		h := call.Call.StaticCallee()
 		if h == nil || len(h.Blocks) == 0 || !strings.HasPrefix(fnPkgPath(h), modPath) {
 			break
@@ -3596,6 +3608,17 @@ func ruleN15(c *Ctx) {
 					if cands[a] {
 						cands[h.Params[i]] = true
 					}
+				}
+			}
+			// the index is another result of the same helper (`pos, ok := normalizeIndex(i, n)`): what the
+			// helper returns in that position is the candidate inside it
+			if ex, ok := idx.(*ssa.Extract); ok {
+				if fx, ok := pf.Cond.(*ssa.Extract); ok && fx.Tuple == ex.Tuple {
+					eachInstr(h, func(in ssa.Instruction) {
+						if ret, ok := in.(*ssa.Return); ok && ex.Index < len(ret.Results) {
+							cands[ret.Results[ex.Index]] = true
+						}
+					})
 				}
 			}
 			facts = append(facts, hf...)
